@@ -74,6 +74,10 @@ def run(run: common.Run):
         nb = case['nb']
         s = np.array([[[rng.randint(1, 60) for _ in range(src.w)] for _ in range(src.h)] for _ in range(nb)], float)
         r = np.array([[[rng.randint(1, 60) for _ in range(ref.w)] for _ in range(ref.h)] for _ in range(nb)], float)
+        if case['i'] % 8 == 3:
+            # signed data (temperatures, anomalies, indices): a reference whose mean is negative - rRMSE = RMSE / mean(ref) is then negative
+            r = -r
+            run.hist['reference with a negative mean'] += 1
         sv = np.ones((src.h, src.w), bool)
         rv = np.ones((ref.h, ref.w), bool)
         for _ in range(rng.randint(0, 4)):
@@ -214,6 +218,10 @@ def run(run: common.Run):
                         bad = f'RMSE = {row["rmse"]}, root mean square difference is {math.sqrt(float(m["rmse2"]))}'
                     elif m['rrmse2'] is not None and abs(row['rrmse'] ** 2 - float(m['rrmse2'])) > 5e-5 * max(1e-3, float(m['rrmse2'])):
                         bad = f'rRMSE = {row["rrmse"]}, RMSE/mean(ref) is {math.sqrt(float(m["rrmse2"]))}'
+                    if not bad and row['n'] > 0 and math.isfinite(row['rrmse']) and row['rrmse'] != 0 and (r > 0).all() != (row['rrmse'] > 0) \
+                            and ((r > 0).all() or (r < 0).all()):
+                        bad = (f'rRMSE = {row["rrmse"]} has the wrong sign: the reference is {"positive" if (r > 0).all() else "negative"} '
+                               f'throughout, and rRMSE = RMSE / mean(reference)')
                     if bad:
                         run.fail(sub, f'band {b + 1}: {bad}', signature=dict(
                             kind='stat-def', forced_finer=case['grid'] == 'forced-finer', multi_block=nblk > nb,
